@@ -66,10 +66,10 @@ def c04_units(tier, seed):
         if lo < 2299161 <= hi:  # the calendar switch: keep the two branches of the day-number correction apart
             segs = [(lo, 2299160), (2299161, hi)]
         for (a, b) in segs:
-            # decode lemma in quarter-century pieces (each query well inside the per-query time limit)
-            QW = 9132
+            # decode lemma in pieces of 1/12 century (each query well inside the per-query time limit)
+            QW = 3044
             for c in range(a, b + 1, QW):
-                us.append(dict(id=f"C04k-dec[N={c}..{min(c + QW - 1, b)}]", harness="calendar.VH_C04k_Decode", params={"NLO": c, "NHI": min(c + QW - 1, b)}))
+                us.append(dict(id=f"C04k-dec[N={c}..{min(c + QW - 1, b)}]", harness="calendar.VH_C04k_Decode", params={"NLO": c, "NHI": min(c + QW - 1, b)}, qtimeout_ms=300000))
             for (c, e) in ([(a, b)] if not (a < 4194304 <= b) else [(a, 4194303), (4194304, b)]):
                 us.append(dict(id=f"C04l[N={c}..{e}]", harness="calendar.VH_C04l_FromJulianDayAll", params={"NLO": c, "NHI": e, "D": (1 << 31) if e < 4194304 else (1 << 30)}))
     for am in range(1, 13):
@@ -239,11 +239,15 @@ def per_year(harness, pid, years, extra_params=None, months=range(1, 13), **kw):
 def c03_units(tier, seed):
     ys = year_set(tier, seed)
     us = per_year("calendar.VH_C03_Near", "C03a", ys)
-    us += [dict(id=f"C03t[Y={Y}]", harness="calendar.VH_C03_Table", params={"Y": Y}) for Y in ys]
+    # table clauses (order, 14.6-15.8 day spacing, entry = the year's own instant rounded to the second, adjacent years agree):
+    # no symbolic input is left once the year is fixed, so these are evaluated on the real table inside the executor,
+    # for every 5th year in quick and every year in thorough
+    ty = sorted(set(ys) | set(range(2, 9998, 5))) if tier == "quick" else range(2, 9998)
+    us += [dict(id=f"C03t[Y={Y}]", harness="calendar.VH_C03_Table", params={"Y": Y}) for Y in ty]
     return us
 
 
-PROPS["C03"] = dict(units=c03_units, bounds_text="every second of each listed civil year (year list in unit_bounds); cubes on civil month",
+PROPS["C03"] = dict(units=c03_units, bounds_text="prev/next/current term: every second of each listed civil year (year list in unit_bounds), cubes on civil month; table clauses (canonical order, strictly increasing, 14.6-15.8 days apart, each entry = the year's raw instant rounded to the second, adjacent years agree on the 7 shared terms): every 5th year (quick) / every year 2..9997 (thorough), evaluated on the real table",
                     outside="that term instants are roots of the solar longitude; years not listed")
 
 
